@@ -887,7 +887,7 @@ impl Prop for C08 {
                 (
                     *[1u8, 2, 2, 3, 4, 8].choose(rng).unwrap(),
                     *[0usize, 1, 3, 16].choose(rng).unwrap(),
-                    rng.random_range(0..=3u8),
+                    rng.random_range(0..=4u8),
                 )
             })
             .collect();
